@@ -34,6 +34,9 @@ import (
 // from sequence 1 by design and passes through older states).
 
 func runC13(t *testing.T, c ReplCase) *kit.Result {
+	if c.Unit != nil {
+		return runC13Unit(t, c)
+	}
 	res := kit.NewResult()
 	cfg := c.Sched.Config()
 	cfg.Verbose = kit.Verbose
@@ -299,6 +302,11 @@ func TestC13(t *testing.T) {
 	kit.Main(t, kit.Spec[ReplCase]{
 		ID: "C13",
 		Gen: func(r *kit.Rand, tier string) ReplCase {
+			if r.Bool(0.2) {
+				u := ReplCase{Sched: kit.GenSched(r, "seq"), RK: kit.GenKnobs(r), NRep: 1, Unit: genUnitScript(r)}
+				u.RK.MemTableSize = kit.PickOf(r, int64(1024), 16384, 32<<20)
+				return u
+			}
 			c := ReplCase{Sched: kit.GenSched(r, "net"), PK: kit.GenKnobs(r), RK: kit.GenKnobs(r), Cfg: genReplCfg(r), Link: genLink(r), NRep: r.Pick(5, 2) + 1, SettleS: int64(kit.PickOf(r, 2, 5, 12))}
 			c.Sched.MaxVirtS = 24 * 3600
 			c.Sched.MaxSteps = 6_000_000
@@ -326,6 +334,14 @@ func TestC13(t *testing.T) {
 		Run: runC13,
 		Shrink: func(c ReplCase) []ReplCase {
 			var out []ReplCase
+			if c.Unit != nil {
+				for _, u := range shrinkUnit(c.Unit) {
+					d := c
+					d.Unit = u
+					out = append(out, d)
+				}
+				return out
+			}
 			for _, s := range shrinkScript(c.Script) {
 				d := c
 				d.Script = s
@@ -360,6 +376,6 @@ func TestC13(t *testing.T) {
 			return out
 		},
 		Strip: func(c ReplCase) any { d := c; d.Sched = kit.Sched{}; return d },
-		Rule:  "C14's workload and cluster (1-2 replicas, no restarts) on an adversarial transport: in 75% of cases whole stream messages are dropped (p 0-0.2), duplicated (0-0.3), swapped with their predecessor (0-0.4) and unary calls fail before/after the handler (0-0.3); plus connection resets, partitions and stalled readers between steps; oracles after every applied entry: the entry is a write of primary step <its sequence>; the replay of all applied entries is an entry-level prefix state of the primary's history; GetLastAppliedSequence() never decreased and does not exceed the steps applied in full (also sampled every 37 ms); at the end the replica engine's scan equals the replay of what its applier was handed. non-trivial = >=2 write steps and >=2 entries applied on a replica",
+		Rule:  "C14's workload and cluster (1-2 replicas, no restarts) on an adversarial transport: in 75% of cases whole stream messages are dropped (p 0-0.2), duplicated (0-0.3), swapped with their predecessor (0-0.4) and unary calls fail before/after the handler (0-0.3); plus connection resets, partitions and stalled readers between steps; oracles after every applied entry: the entry is a write of primary step <its sequence>; the replay of all applied entries is an entry-level prefix state of the primary's history; GetLastAppliedSequence() never decreased and does not exceed the steps applied in full (also sampled every 37 ms); at the end the replica engine's scan equals the replay of what its applier was handed. non-trivial = >=2 write steps and >=2 entries applied on a replica. One case in five drives the replica's receiving side alone: a real Replica (batch applier, decompression, gap handling, EngineApplier, engine) is handed 2-25 arbitrary responses - slices of a 2-30 step log cut at sequence boundaries, ahead of / behind / overlapping the cursor, duplicated, really compressed, through the streaming or the waiting path, with an apply error injected at some entry - same oracles, plus: a negative acknowledgement never asks for more than the replica lacks",
 	})
 }
